@@ -299,13 +299,18 @@ def history(ctx: Ctx, target: str, case: str, edit: bool = True) -> None:
         key = hashlib.sha256(text.encode()).hexdigest()
         obs = {x: res[x] for x in ("rc", "stdout", "stderr", "tree")}
         if isinstance(res["rc"], str):
-            ctx.fail(inp, f"{target}/{case} step {name}: main.execute raised {res['rc']}", f"C23:execute-{res['rc']}")
+            # a generator that raises also without caching is not C23's business (C02); what counts below is
+            # whether the cached run behaves like the uncached one
+            ctx.hit(f"execute-{res['rc']}")
+            obs = {"rc": res["rc"], "stdout": "", "stderr": "", "tree": {}}
         if key not in ref:
             if eff:
                 # the reference for a text is always an uncached run
                 (root / f"ref{k}").mkdir()
                 r0 = execute_audited(target, model, snippets, root / f"ref{k}", False, root / f"tmp-ref-{k}")
                 ref[key] = {x: r0[x] for x in ("rc", "stdout", "stderr", "tree")}
+                if isinstance(r0["rc"], str):
+                    ref[key] = {"rc": r0["rc"], "stdout": "", "stderr": "", "tree": {}}
             else:
                 ref[key] = obs
         if obs != ref[key]:
